@@ -37,6 +37,9 @@ with ThreadPoolExecutor(max_workers=12) as ex:
         allres[name]=res
         for pid,msg in res.items():
             print(f'FALSE-ALARM {name} under {pid}: {msg}', flush=True)
+if len(sys.argv)>1 and os.path.exists(f'{V}/selftest/cross_benign.json'):
+    # a filtered run refreshes its entries in the full table
+    full=json.load(open(f'{V}/selftest/cross_benign.json')); full.update(allres); allres=full
 json.dump(allres, open(f'{V}/selftest/cross_benign.json','w'), indent=1, sort_keys=True)
 shutil.rmtree(os.path.dirname(BIN), ignore_errors=True)
 n=sum(1 for r in allres.values() if r)
